@@ -685,6 +685,7 @@ impl Parser {
         self.state = EngineState::Default;
         buf.reset_terminal();
         caret.reset();
+        caret.home(buf);
     }
 
     /// Sequence: `CSI Ps1 ; Ps2 * r`</p>
